@@ -57,6 +57,12 @@ def gen_cases(tier, seed):
                 k += 1
                 cases.append(dict(mode="loss", loss=l, flavour="plain", net="pinn", order=order, variant="zero_weight_singular",
                                   d=int(rng.integers(1, 3)), B=int(rng.integers(2, 5)), seed=seed * 10000 + k, cost=3.0))
+        # Neumann boundary terms, first evaluated under jit, then eagerly / through value-and-grad / under a new trace:
+        # nothing computed while tracing may survive the trace (module-level caches, globals)
+        for l in ("statio", "nonstatio"):
+            for d_ in (1, 2):
+                k += 1
+                cases.append(dict(mode="neumann_jit_first", loss=l, d=d_, B=int(rng.integers(2, 5)), seed=seed * 10000 + k, cost=2.0))
         for g in GENS:
             for state in ("fresh", "mid", "end"):
                 for x64 in (True, False):
@@ -119,6 +125,8 @@ def diff_path(a, b, path=""):
 def run_case(case, rec):
     if case["mode"] == "loss":
         return run_loss(case, rec)
+    if case["mode"] == "neumann_jit_first":
+        return run_neumann_jit_first(case, rec)
     if case["mode"] == "gen":
         return run_gen(case, rec)
     return run_two_loaders(case, rec)
@@ -316,6 +324,61 @@ def run_loss(case, rec):
     rec.nontrivial((case["loss"], case["net"], case["flavour"], case["order"], case["d"], case["B"], case.get("variant")))
     rec.set_sample(loss=case["loss"], net=case["net"], flavour=case["flavour"], order=case["order"],
                    values={k: v for k, v in seen.items()})
+
+
+def run_neumann_jit_first(case, rec):
+    import jax
+    import jax.numpy as jnp
+    import jinns
+    from jinns.parameters import Params
+
+    rng = np.random.default_rng([case["seed"], 201])
+    kind, d, B = case["loss"], case["d"], case["B"]
+    nonst = kind == "nonstatio"
+    D = d + (1 if nonst else 0)
+    net = nets.Net(fields.TrigField(case["seed"], D, 1), "nonstatio_PDE" if nonst else "statio_PDE")
+    params = Params(nn_params=net.nn_params(), eq_params={"nu": jnp.asarray(1.0)})
+    Loss = jinns.loss.LossPDENonStatio if nonst else jinns.loss.LossPDEStatio
+    loss = guard.call(Loss, u=net.pinn(), dynamic_loss=None, params=params, omega_boundary_condition="von neumann",
+                      omega_boundary_fun=(lambda t, dx: 0.3) if nonst else (lambda dx: 0.3))
+
+    def batch_of(nb):
+        nf = 2 * d
+        cols = []
+        for f in range(nf):
+            p = rng.uniform(-1, 2, (nb if d == 2 else 1, d))
+            p[:, f // 2] = [-1.0, 2.0][f % 2]
+            cols.append(p)
+        sp = np.stack(cols, -1)
+        if nonst:
+            sp = np.concatenate([np.repeat(rng.uniform(0, 1, (sp.shape[0], 1, 1)), nf, axis=2), sp], axis=1)
+            return jinns.data.PDENonStatioBatch(times_x_inside_batch=jnp.zeros((2, D)), times_x_border_batch=jnp.asarray(sp))
+        return jinns.data.PDEStatioBatch(inside_batch=jnp.zeros((2, D)), border_batch=jnp.asarray(sp))
+
+    b1, b2 = batch_of(B), batch_of(B + 1)
+    sig = "loss/%s/pinn/neumann-jit-first/dim%d" % (kind, d)
+    rec.count("neumann_jit_first_cases")
+    val = lambda out: float(out[1]["boundary_loss"])
+    steps = [("jit", lambda: jax.jit(lambda l, p, b: l.evaluate(p, b))(loss, params, b1), b1),
+             ("eager", lambda: loss.evaluate(params, b1), b1),
+             ("grad", lambda: jax.value_and_grad(lambda p: loss.evaluate(p, b1), has_aux=True)(params)[0], b1),
+             ("jit-new-trace", lambda: jax.jit(lambda l, p, b: l.evaluate(p, b))(loss, params, b2), b2),
+             ("eager-new-batch", lambda: loss.evaluate(params, b2), b2)]
+    seen = {}
+    for name, fn, bb in steps:
+        try:
+            v = val(guard.call(fn))
+        except guard.Crash as c:
+            rec.violation(sig + "/%s-after-jit/crash/%s" % (name, c.etype),
+                          "%s evaluation after a first jitted one crashed: %s" % (name, str(c)[:300]))
+            continue
+        rec.count("mode_pairs_compared")
+        key = id(bb)
+        if key in seen and not close(v, seen[key][1], 1e-12, 1e-14):
+            rec.violation(sig + "/%s-differs-from-%s" % (name, seen[key][0]), "%s gives %r, %s gave %r" % (name, v, seen[key][0], seen[key][1]))
+        seen.setdefault(key, (name, v))
+    rec.nontrivial(("neumann_jit_first", kind, d, B))
+    rec.set_sample(kind=kind, d=d, values={n_: v_ for n_, v_ in seen.values()})
 
 
 # ----------------------------------------------------------------------------- generators
